@@ -606,7 +606,8 @@ SELFTEST = [
     {"name": "K1-alpha-constant-at-call-site", "kind": "break", "rule": "K1", "file": _FA, "old": "            self.outlier_proposal_prob,\n            self.tree_dist.prior.alpha,\n        )", "new": "            self.outlier_proposal_prob,\n            1.0,\n        )"},
     {"name": "K1-fscrp-eq-always-true", "kind": "break", "rule": "K1", "file": "phyclone/tree/distributions.py", "old": "        alpha_check = self.alpha == other.alpha\n        return alpha_check", "new": "        return True"},
     {"name": "K1-fscrp-hash-constant", "kind": "break", "rule": "K1", "file": "phyclone/tree/distributions.py", "old": "        return hash(self.alpha)", "new": "        return hash(type(self))"},
-    {"name": "K1-cached-body-reads-global", "kind": "break", "rule": "K1", "file": _M, "old": "@lru_cache(maxsize=None)\ndef cached_log_factorial(x):\n    return log_factorial(x)", "new": "_OFFSET = 1\n\n\n@lru_cache(maxsize=None)\ndef cached_log_factorial(x):\n    return log_gamma(x + _OFFSET)"},
+    {"name": "K1-cached-body-reads-global", "kind": "break", "rule": "K1", "file": _M, "old": "@lru_cache(maxsize=None)\ndef cached_log_factorial(x):\n    return log_factorial(x)", "new": "_OFFSET = 1\n\n\ndef set_offset(v):\n    global _OFFSET\n    _OFFSET = v\n\n\n@lru_cache(maxsize=None)\ndef cached_log_factorial(x):\n    return log_gamma(x + _OFFSET)"},
+    {"name": "benign-K1-cached-body-reads-constant", "kind": "benign", "file": _M, "old": "@lru_cache(maxsize=None)\ndef cached_log_factorial(x):\n    return log_factorial(x)", "new": "_OFFSET = 1\n\n\n@lru_cache(maxsize=None)\ndef cached_log_factorial(x):\n    return log_gamma(x + _OFFSET)"},
     {"name": "K1-new-tree-cache-keyed-on-other-point", "kind": "break", "rule": "K1", "file": _SA, "old": "            self.parent_particle,\n            self.data_point,\n            frozenset(children),", "new": "            self.parent_particle,\n            self.data_point.idx,\n            frozenset(children),"},
     {"name": "K2-hash-first-array-only", "kind": "break", "rule": "K2", "file": _UU, "old": "hashable = np.array([xxh3_64_hexdigest(arr) for arr in list_of_np_arrays], order=\"C\")", "new": "hashable = np.array([xxh3_64_hexdigest(arr) for arr in list_of_np_arrays[:1]], order=\"C\")"},
     {"name": "K2-digests-as-set", "kind": "break", "rule": "K2", "file": _UU, "old": "        hashable.sort()\n        ret = tuple(hashable)", "new": "        ret = frozenset(hashable)"},
